@@ -155,9 +155,11 @@ def rule_store_close(ctx, r, which=("tracked jobs", "spec hashes")):
                 ("update(T) then close", dict(base), [("update", "T")], None, True),
                 ("invalidate(A), invalidate(missing) then close", dict(base), [("invalidate", "A"), ("invalidate", "ZZ")], {"B": "⟦V_B⟧"}, True),
                 ("invalidate of the last record then close", {"A": "⟦V_A⟧"}, [("invalidate", "A")], {}, True),
+                ("update(A) for a target that already has a record (its spec was edited) then close", dict(base), [("update", "A")], None, True),
             ]
         if label == "tracked jobs":
-            scenarios += [("submit(T) then close", dict(base), [("submit", "T")], None, True)]
+            scenarios += [("submit(T) then close", dict(base), [("submit", "T")], None, True),
+                          ("submit(A) for a target that is already tracked (re-submission: same name, new job id) then close", dict(base), [("submit", "A")], None, True)]
         n_ok = 0
         for name, table, script, want, must_write in scenarios:
             events, err, obj = eval_close(ctx, ckey, attr, table, script, disk={"A": "⟦STALE⟧", "Z": "⟦STALE_Z⟧"})
@@ -190,6 +192,9 @@ def rule_store_close(ctx, r, which=("tracked jobs", "spec hashes")):
         cyc = [("update(T)", [("update", "T")])] if label == "spec hashes" else [("submit(T)", [("submit", "T")])]
         if label == "spec hashes":
             cyc.append(("invalidate(A)", [("invalidate", "A")]))
+            cyc.append(("update(A) (a target that already has a record, spec edited)", [("update", "A")]))
+        else:
+            cyc.append(("submit(A) (re-submission of a tracked target: same name, new job id)", [("submit", "A")]))
         for cname, script in cyc:
             events, err, obj = eval_life_cycle(ctx, ckey, attr, dict(base), script)
             if err is not None:
